@@ -358,6 +358,11 @@ def c02(run):
     obs_stage(run, "witnesses,boundaries,streams", _q(run, 25, 400), ["C02"], "generated single/multi-document streams of every format x 4 targets x explicit/detected x slice + 7 read schedules")
     obs_stage(run, "encodings", _q(run, 6, 100), ["C02"], "YAML text in UTF-8/16/32 (LE/BE, +-BOM) x slice + 6 read schedules incl. cuts inside code units")
     obs_stage(run, "unknown", _q(run, 300, 6000), ["C02"], "mutated/truncated/spliced inputs x 3 source selections x slice + 4 read schedules")
+    # small-scope exhaustive part: every token sequence TLC enumerates, in every format's alphabet
+    gen = run_tlc("XtTokens.tla", _q(run, "XtTokens_2.cfg", "XtTokens.cfg"), workers=4, coverage=False)     # thorough: 14 425 sequences x 4 alphabets
+    run.add_mc(gen, "XtTokens: TLC enumerates every token index sequence up to the length bound (one initial state each)")
+    os.environ["XT_TOKS"] = write_lines(os.path.join(WORK, "toks_c02_%s.ndjson" % run.tier), sorted(set(tlc_printed(gen["out"], "TOKS"))))
+    obs_stage(run, "tokens", 0, ["C02"], "every sequence of <= 2 (thorough: 3) tokens over each format's 24-token alphabet x named/detected x slice, one-piece reader, byte-by-byte reader")
 
 
 def c03(run):
@@ -709,7 +714,7 @@ def c04(run):
     oth = oth[::max(1, len(oth) // _q(run, 300, 4000))]
     sel = adv + adv + oth            # adversarial shapes through BOTH binaries (index parity picks the binary)
     if len(adv) % 2 == 0:
-        sel = adv + [adv[0]] + adv[1:] + adv[:1] + oth
+        sel = adv + [adv[0]] + adv + oth     # (one filler keeps the second copy on the other parity)
     tmp = os.path.join(WORK, "total-%s" % run.tier)
     os.makedirs(tmp, exist_ok=True)
 
